@@ -328,3 +328,249 @@ func ruleBuilderErrorReturned(c *report.Ctx) {
 }
 
 var _ = report.New
+
+// ruleAmountStringUntouched (C15): what reaches StringToAmount is the request text, at most trimmed.
+func ruleAmountStringUntouched(c *report.Ctx) {
+	p := c.P
+	c.Rule("amount-string-untouched", "the string handed to StringToAmount is the caller's text (a parameter, a request field or a map value), at most passed through strings.Trim*: no numeric re-rendering (big.Rat, float, Sprintf) sits in front of the parser, whose job is to reject everything that is not a plain decimal", 2)
+	sta := fn(c, pkgAPI, "", "StringToAmount")
+	if sta == nil {
+		return
+	}
+	var okSrc func(v ssa.Value, depth int) (bool, string)
+	okSrc = func(v ssa.Value, depth int) (bool, string) {
+		if depth > 6 {
+			return false, "undecided"
+		}
+		switch x := v.(type) {
+		case *ssa.Parameter, *ssa.Const, *ssa.Lookup, *ssa.FreeVar:
+			return true, ""
+		case *ssa.UnOp:
+			return true, "" // field / element load
+		case *ssa.Extract:
+			if _, isNext := x.Tuple.(*ssa.Next); isNext {
+				return true, ""
+			}
+			if _, isLk := x.Tuple.(*ssa.Lookup); isLk {
+				return true, ""
+			}
+			return okSrc(x.Tuple, depth+1)
+		case *ssa.Phi:
+			for _, e := range x.Edges {
+				if ok, why := okSrc(e, depth+1); !ok {
+					return false, why
+				}
+			}
+			return true, ""
+		case *ssa.Call:
+			if cal := x.Call.StaticCallee(); cal != nil && strings.HasPrefix(an.FuncKey(cal), "strings.Trim") {
+				return okSrc(x.Call.Args[0], depth+1) // removes characters at the ends only (blanks, a unit suffix): the parser still sees the caller's digits
+			}
+			return false, p.Desc(v)
+		}
+		return false, p.Desc(v)
+	}
+	for _, f := range p.ModFuncs {
+		for i, s := range calls(f, sta) {
+			key := siteKey(f, "StringToAmount-arg", i+1)
+			if ok, why := okSrc(an.CallOf(s).Args[0], 0); ok {
+				c.OK(key, "request text (trimmed at most)", posOf(c, s))
+			} else {
+				c.Fail(key, "the text parsed as an amount is "+why+", a re-rendering of the request string: forms the parser must reject (exponents, signs, separators, excess precision) are rewritten into plain decimals and accepted, some with a rounded value", posOf(c, s))
+			}
+		}
+	}
+}
+
+// ruleAmountCtorErrorUsed (C15): a range error of an amount constructor is never discarded for a non-constant value.
+func ruleAmountCtorErrorUsed(c *report.Ctx) {
+	p := c.P
+	c.Rule("amount-ctor-error-used", "the error result of massutil.NewAmountFromInt / NewAmountFromUint is used wherever the argument is not a compile-time constant: an out-of-range integer must be refused, not replaced by the zero amount the constructor returns with its error", 10)
+	for _, f := range p.ModFuncs {
+		pk := an.FuncPkg(f)
+		if pk == nil || !(pk.Path() == pkgAPI || pk.Path() == pkgWallet || pk.Path() == pkgTxmgr) {
+			continue
+		}
+		n := 0
+		an.Instrs(f, func(in ssa.Instruction) {
+			call, ok := in.(*ssa.Call)
+			if !ok || call.Call.StaticCallee() == nil {
+				return
+			}
+			k := an.FuncKey(call.Call.StaticCallee())
+			if !strings.HasSuffix(k, "massutil.NewAmountFromInt") && !strings.HasSuffix(k, "massutil.NewAmountFromUint") {
+				return
+			}
+			arg := stripConv(call.Call.Args[0])
+			if _, isK := arg.(*ssa.Const); isK {
+				return
+			}
+			if ld, isLd := arg.(*ssa.UnOp); isLd {
+				if _, isG := ld.X.(*ssa.Global); isG {
+					return // a package-level parameter (consensus constant)
+				}
+			}
+			n++
+			key := siteKey(f, calleeName(p, in)+"-error", n)
+			used := false
+			for _, r := range *call.Referrers() {
+				if ex, ok := r.(*ssa.Extract); ok && ex.Index == 1 && len(*ex.Referrers()) > 0 {
+					used = true
+				}
+			}
+			if used {
+				c.OK(key, "error examined", posOf(c, in))
+			} else {
+				c.Fail(key, "the range error of "+calleeName(p, in)+" is discarded: for a value below 0 or above the maximum supply the constructor returns the zero amount with an error, so the response reports \"0\" (or the computation goes on with 0) instead of refusing the value", posOf(c, in))
+			}
+		})
+	}
+}
+
+// ruleOneReadTransaction (C17): a balance / coin-list query reads everything through one read transaction.
+func ruleOneReadTransaction(c *report.Ctx) {
+	p := c.P
+	c.Rule("one-read-transaction", "WalletBalance, AddressBalance and GetUtxo reach exactly one mwdb.View: tip height, coins and flags of one answer come from one read transaction (two transactions can straddle a block commit)", 3)
+	view := fn(c, pkgDB, "", "View")
+	if view == nil {
+		return
+	}
+	for _, name := range []string{"WalletBalance", "AddressBalance", "GetUtxo"} {
+		f := fn(c, pkgWallet, "WalletManager", name)
+		if f == nil {
+			continue
+		}
+		reached, _ := p.Reach([]*ssa.Function{f}, an.ReachOpts{})
+		var sites []string
+		for g := range reached {
+			for _, s := range calls(g, view) {
+				sites = append(sites, p.InstrPos(s))
+			}
+		}
+		sort.Strings(sites)
+		key := sk(f) + ":views"
+		if len(sites) == 1 {
+			c.OK(key, "one read transaction ("+sites[0]+")", p.Pos(f.Pos()))
+		} else {
+			c.Fail(key, name+" reads through "+itoa(len(sites))+" read transactions ("+strings.Join(sites, ", ")+"): a block committed between them makes the answer combine the coins of one state with the tip height (confirmations, maturity) of another", p.Pos(f.Pos()))
+		}
+	}
+}
+
+// ruleFlagsBeforeFilter (C09/C02): the callback that decides about a coin sees the coin's final flags.
+func ruleFlagsBeforeFilter(c *report.Ctx) {
+	p := c.P
+	c.Rule("flags-before-filter", "ScriptAddressUnspents completes the Credit it hands to the caller's filter before calling it: no field of the item (in particular Flags.SpentByUnmined) is assigned after the callback ran", 1)
+	f := fn(c, pkgTxmgr, "UtxoStore", "ScriptAddressUnspents")
+	if f == nil {
+		return
+	}
+	var cb ssa.Instruction
+	an.Instrs(f, func(in ssa.Instruction) {
+		cc := an.CallOf(in)
+		if cc == nil {
+			return
+		}
+		if par, ok := cc.Value.(*ssa.Parameter); ok && par.Parent() == f {
+			cb = in
+		}
+	})
+	if cb == nil {
+		c.Fail(sk(f)+":filter-call", "anchor lost: ScriptAddressUnspents no longer calls its filter parameter", p.Pos(f.Pos()))
+		return
+	}
+	item := an.CallOf(cb).Args[0]
+	rooted := func(addr ssa.Value) bool {
+		for i := 0; i < 6; i++ {
+			switch x := addr.(type) {
+			case *ssa.FieldAddr:
+				if x.X == item {
+					return true
+				}
+				addr = x.X
+				continue
+			}
+			break
+		}
+		return false
+	}
+	bad := false
+	nst := 0
+	an.Instrs(f, func(in ssa.Instruction) {
+		st, ok := in.(*ssa.Store)
+		if !ok || !rooted(st.Addr) {
+			return
+		}
+		nst++
+		if !instrDominates(in, cb) {
+			bad = true
+			c.Fail(sk(f)+":store-after-filter", "a field of the coin ("+p.Desc(st.Addr)+") is assigned after the caller's filter has already judged it: the coin-selection filter tests !SpentByUnmined on a value that is still false, so a coin spent by a pending transaction is offered for a new transaction", posOf(c, in))
+		}
+	})
+	// the pending flag in particular must have been computed (on cred or item) before the call
+	flagOK := false
+	an.Instrs(f, func(in ssa.Instruction) {
+		st, ok := in.(*ssa.Store)
+		if !ok {
+			return
+		}
+		if fa, ok := st.Addr.(*ssa.FieldAddr); ok {
+			if stt := derefStructT(fa.X.Type()); stt != nil && stt.Field(fa.Field).Name() == "SpentByUnmined" && instrDominates(in, cb) {
+				flagOK = true
+			}
+		}
+	})
+	if !bad && flagOK {
+		c.OK(sk(f)+":item-complete-before-filter", itoa(nst)+" item stores, all before the callback; SpentByUnmined computed before it", posOf(c, cb))
+	} else if !bad {
+		c.Fail(sk(f)+":item-complete-before-filter", "SpentByUnmined is not computed before the filter is called", posOf(c, cb))
+	}
+}
+
+// ruleConflictWalksOutputs (C09): purging a conflicting pending transaction walks all of its outputs.
+func ruleConflictWalksOutputs(c *report.Ctx) {
+	p := c.P
+	c.Rule("conflict-walks-outputs", "removeConflict builds the outpoints (rec.Hash, i) of the purged transaction for every i below len(rec.MsgTx.TxOut): descendants spending any of its outputs are purged and the pending credits of all outputs are deleted", 1)
+	f := fn(c, pkgTxmgr, "TxStore", "removeConflict")
+	cop := fn(c, pkgTxmgr, "", "canonicalOutPoint")
+	if f == nil || cop == nil {
+		return
+	}
+	n := 0
+	for _, s := range calls(f, cop) {
+		cc := an.CallOf(s)
+		if !strings.HasSuffix(p.Desc(cc.Args[0]), "TxRecord.Hash") {
+			continue
+		}
+		n++
+		key := siteKey(f, "own-outpoints", n)
+		idx := stripConv(cc.Args[1])
+		// the loop bound of idx
+		bound := ""
+		an.Instrs(f, func(in ssa.Instruction) {
+			b, ok := in.(*ssa.BinOp)
+			if !ok || b.Op != token.LSS {
+				return
+			}
+			x := b.X
+			if a, ok := x.(*ssa.BinOp); ok && a.Op == token.ADD {
+				x = a.X
+			}
+			base := idx
+			if a, ok := idx.(*ssa.BinOp); ok && a.Op == token.ADD {
+				base = a.X
+			}
+			if x == base || b.X == idx {
+				bound = p.Desc(b.Y)
+			}
+		})
+		if strings.HasPrefix(bound, "len(") && strings.HasSuffix(bound, "MsgTx.TxOut)") {
+			c.OK(key, "i ranges over "+bound, posOf(c, s))
+		} else {
+			c.Fail(key, "the outputs of the purged transaction are enumerated up to "+bound+" instead of len(rec.MsgTx.TxOut): with fewer inputs than outputs the higher outputs are skipped — a pending child spending the change output stays pending forever, the other coins it holds stay flagged, and stale pending credits remain", posOf(c, s))
+		}
+	}
+	if n == 0 {
+		c.Fail(sk(f)+":own-outpoints", "anchor lost: removeConflict no longer enumerates (rec.Hash, i)", p.Pos(f.Pos()))
+	}
+}
